@@ -14,9 +14,15 @@ SCRIPT = {"A": [], "B": [("post_fifo", "A")], "C": [("post_lifo", "A")], "D": [(
 
 
 def make_chart(family):
+    """s0 handles every scripted signal internally; T toggles between s0 and its substate s1, whose entry action posts A
+    (lifo) and whose exit action posts B (fifo) - posts made by entry/exit actions during a transition"""
     react = {(0, SIG[n]): ("H",) for n in SCRIPT}
+    react[(0, SIG["T"])] = ("T", 1)
+    react[(1, SIG["T"])] = ("T", 0)
     act = {(0, SIG[n]): list(a) for n, a in SCRIPT.items() if a}
-    t = Table((-1,), react=react, act=act, budget=100000)
+    act[(1, charts.ENTRY)] = [("post_lifo", "A")]
+    act[(1, charts.EXIT)] = [("post_fifo", "B")]
+    t = Table((-1, 0), react=react, act=act, budget=100000)
     live = family == "spied+live"
     use(t, "spied" if live else family)
     h = charts.new_host("queued", **({"instrumented": False} if family == "plain" else {}))
@@ -42,8 +48,10 @@ def apply_impl(t, h, op):
         ret = _apply_impl(h, op)
     except (IndexError, RuntimeError) as e:
         ret = "raised " + type(e).__name__
-    disp = [x[0] for x in t.log[n0:] if x[0] in SCRIPT]
-    return {"ret": ret, "dispatched": disp, "queue": names(h.queue), "deferred": names(h.defer_queue)}
+    # an event counts as dispatched where a state answers it (offers that merely bubble through s1 are not counted)
+    disp = [x[0] for x in t.log[n0:] if x[0] in SIG and (x[1], SIG[x[0]]) in t.react]
+    return {"ret": ret, "dispatched": disp, "queue": names(h.queue), "deferred": names(h.defer_queue),
+            "state": charts.config_of(h)}
 
 
 def _apply_impl(h, op):
@@ -65,9 +73,20 @@ def _apply_impl(h, op):
     return ret
 
 
+CUR = [0]       # the reference chart's current state (0 = s0, 1 = its substate s1), reset per path
+
+
 def ref_step(q, dq, disp):
     e = q.pop(0)
     disp.append(e)
+    if e == "T":
+        if CUR[0] == 0:
+            CUR[0] = 1
+            q.insert(0, "A")        # entry action of s1
+        else:
+            CUR[0] = 0
+            q.append("B")           # exit action of s1
+        return
     for a in SCRIPT[e]:
         if a[0] == "post_fifo":
             q.append(a[1])
@@ -93,7 +112,7 @@ def apply_ref(q, dq, op):
         ret = _apply_ref(q, dq, op, disp)
     except RefRaise as e:
         ret = "raised " + e.args[0]
-    return {"ret": ret, "dispatched": disp, "queue": list(q), "deferred": list(dq)}
+    return {"ret": ret, "dispatched": disp, "queue": list(q), "deferred": list(dq), "state": CUR[0]}
 
 
 def _apply_ref(q, dq, op, disp):
@@ -139,6 +158,7 @@ def bfs(pid, alphabet, depth, family, first_ops):
         for path in frontier:
             t, h = make_chart(family)
             q, dq = [], []
+            CUR[0] = 0
             bad = False
             for i, op in enumerate(path):
                 o_impl = apply_impl(t, h, op)
@@ -154,7 +174,12 @@ def bfs(pid, alphabet, depth, family, first_ops):
                         bad = True
             if bad:
                 continue
-            state = (tuple(q), tuple(dq))
+            if isinstance(o_ref["ret"], str) and o_ref["ret"].startswith("raised"):
+                # what the call does when a handler raises is checked (above); how the chart behaves *after* a handler
+                # raised in the middle of a step is not constrained by any property (the processor's search cursor is
+                # left where the exception struck): such paths are not extended
+                continue
+            state = (tuple(q), tuple(dq), CUR[0])
             if len(samples) < 1 and len(path) >= 4 and o_ref["dispatched"]:
                 samples.append({"ops": [list(o) for o in path], "last": o_ref})
             if state in seen:
@@ -189,6 +214,7 @@ def replay(pid, witness):
     res = Result(pid)
     t, h = make_chart(witness["family"])
     q, dq = [], []
+    CUR[0] = 0
     for op in witness["ops"]:
         op = tuple(op)
         a, b = apply_impl(t, h, op), apply_ref(q, dq, op)
